@@ -115,6 +115,14 @@ func init() {
 				{Name: "dbgpar/step/Map/grow/chain3", Pkg: "xsync", Func: "VxH_Map_resizeStep", Args: []int64{0, 1, 3, 1}, Cfg: eng.Config{DefaultUnwind: 8}},
 				{Name: "dbgpar/step/Map/shrink/chain2", Pkg: "xsync", Func: "VxH_Map_resizeStep", Args: []int64{1, 2, 2, 1}, Cfg: eng.Config{DefaultUnwind: 8}},
 			}
+			is = append(is, resizeParO("dbgpar/r3of/MapOf", true, 0, []int{5}, 1, 0, 3, 1)...)
+			is = append(is, resizeParO("dbgpar/r3of/Map", false, 0, []int{5}, 1, 0, 3, 1)...)
+			is = append(is, resizeParO("dbgpar/of1/MapOf", true, 1, []int{1, 7}, 2, 1, 2, 1)...)
+			is = append(is, resizeParO("dbgpar/of1/MapOf", true, 0, []int{0, 2, 5, 6, 7, 8}, 1, 1, 2, 1)...)
+			is = append(is, resizeParO("dbgpar/of1/Map", false, 0, []int{0, 1, 5, 7, 8}, 1, 1, 2, 1)...)
+			is = append(is, resizeParO("dbgpar/of1/Map", false, 1, []int{1}, 2, 0, 2, 1)...)
+			is = append(is, resizeParO("dbgpar/Map", false, 0, []int{1}, 1, 0, 2, 1)...)
+			is = append(is, resizeParO("dbgpar/MapOf", true, 0, []int{1}, 1, 1, 2, 1)...)
 			is = append(is, resizePar("dbgpar/MapOf", true, 0, []int{0, 1, 2, 5, 6, 7}, 1, 1, 2)...)
 			is = append(is, resizePar("dbgpar/MapOf", true, 1, []int{1, 7}, 2, 1, 2)...)
 			is = append(is, resizePar("dbgpar/Map", false, 0, []int{0, 1, 5, 7}, 1, 1, 2)...)
@@ -383,13 +391,22 @@ func parCfgShrinkReq(rounds int) eng.Config {
 // operation on an arbitrary valid table. Map: args op,hint,tableLen,mode;
 // MapOf adds the number of symbolic slots per bucket.
 func resizePar(prefix string, of bool, hint int, ops []int, tableLen, mode, rounds int) []eng.Instance {
+	return resizeParO(prefix, of, hint, ops, tableLen, mode, rounds, 0)
+}
+
+// order 1: the operation's thread moves first in each round (op,resize,op,resize)
+func resizeParO(prefix string, of bool, hint int, ops []int, tableLen, mode, rounds, order int) []eng.Instance {
 	var is []eng.Instance
 	hn := []string{"grow", "shrink"}[hint]
+	if order == 1 {
+		hn = "op-first/" + hn
+	}
 	for _, op := range ops {
 		fn, args := "VxH_Map_resizePar", []int64{int64(op), int64(hint), int64(tableLen), int64(mode)}
 		if of {
 			fn, args = "VxH_MapOf_resizePar", append(args, 1)
 		}
+		args = append(args, int64(order))
 		is = append(is, eng.Instance{Name: fmt.Sprintf("%s/%s||%s/pre%d", prefix, hn, mapOps[op], mode), Pkg: "xsync", Func: fn, Args: args,
 			Cfg: eng.Config{DefaultUnwind: 3, Rounds: rounds, NoResizeCall: map[int]bool{0: true, 1: true}}})
 	}
@@ -455,6 +472,7 @@ func init() {
 			// a whole-table grow 1->2 buckets overlapping one call
 			is = append(is, resizePar("C03/Map", false, 0, []int{8}, 1, 1, 2)...)
 			is = append(is, resizePar("C03/Map", false, 0, []int{1}, 1, 0, 2)...)
+			is = append(is, resizeParO("C03/Map", false, 0, []int{1}, 1, 0, 2, 1)...) // op,resize,op,resize
 			return is
 		},
 		Thorough: func() []eng.Instance {
@@ -465,6 +483,7 @@ func init() {
 					Args: []int64{int64(t[0]), int64(t[1]), int64(t[2]), 1, 1, 1, 1}, Cfg: parCfgShrinkReq(2)})
 			}
 			is = append(is, resizePar("C03/Map", false, 0, []int{0, 1, 5, 7}, 1, 1, 2)...)
+			is = append(is, resizeParO("C03/Map", false, 0, []int{0, 1, 5, 7, 8}, 1, 1, 2, 1)...)
 			is = append(is, resizePar("C03/Map", false, 1, []int{1}, 2, 0, 2)...)
 			return is
 		},
@@ -480,12 +499,14 @@ func init() {
 			is = append(is, eng.Instance{Name: "C04/MapOf/par12/Load||Delete;Store", Pkg: "xsync", Func: "VxH_MapOf_par12", Args: []int64{0, 7, 1, 1, 1, 1, 1, 2}, Cfg: parCfgShrinkReq(2)})
 			// a whole-table grow 1->2 buckets overlapping one call
 			is = append(is, resizePar("C04/MapOf", true, 0, []int{8, 1}, 1, 1, 2)...)
+			is = append(is, resizeParO("C04/MapOf", true, 0, []int{1}, 1, 1, 2, 1)...) // op,resize,op,resize
 			return is
 		},
 		Thorough: func() []eng.Instance {
 			is := mapPar2("C04/MapOf/par2", "VxH_MapOf_par2", allPairs(parOps), []int64{1, 1, 1, 1, 2}, 2)
 			is = append(is, mapPar2("C04/MapOf/par2+Clear", "VxH_MapOf_par2", [][2]int{{8, 0}, {8, 1}, {8, 7}, {8, 8}}, []int64{1, 1, 1, 1, 2}, 2)...)
 			is = append(is, resizePar("C04/MapOf", true, 0, []int{0, 2, 5, 6, 7}, 1, 1, 2)...)
+			is = append(is, resizeParO("C04/MapOf", true, 0, []int{0, 2, 5, 6, 7, 8}, 1, 1, 2, 1)...)
 			is = append(is, resizePar("C04/MapOf", true, 1, []int{7}, 2, 1, 2)...) // shrink||Store runs in the C08 and C13 thorough tiers
 			return is
 		},
